@@ -42,6 +42,7 @@ from . import c13_sched as S
 from . import c13_ram as RAM
 
 SID = 'c13f' + '0' * 36
+DEBUG = False
 MUTATING = ('open.w', 'pickle.dump', 'unlink', 'replace')
 
 
@@ -83,7 +84,7 @@ class _PathShim:
         self._run = run
 
     def exists(self, p):
-        self._run.sched.yield_point(('exists', str(p)))
+        self._run.fileop('exists', p)
         return _os.path.exists(p)
 
     def __getattr__(self, name):
@@ -201,7 +202,7 @@ class FileRun:
         self.timeout_leak = []
         self.max_occ = 0
         self.errors = {}
-        self.sweeper_obj = sessions.FileSession(id=None, storage_path=self.tmp, timeout=1, clean_freq=0)
+        self.sweeper_obj = sessions.FileSession(id=None, storage_path=self.tmp, timeout=1, clean_freq=0, debug=DEBUG)
         for i in range(n):
             self.sched.spawn('r%d' % i, self._worker(i))
             self.sched.step('r%d' % i)
@@ -233,26 +234,30 @@ class FileRun:
         self.sched.yield_point((kind, path))
         if path != self.datafile or self.sched.current() is None:
             return
-        if kind in MUTATING:
-            self._fs_cache = None              # the snapshot re-reads the file after this step
         me = self.me()
         h = self.holders.get(self.lockpath)
         holder = h[0] if h else None
         if kind in MUTATING and holder != me:
             self.unlocked_ops.append('%s:%s(lock held by %s)' % (me, kind, holder or 'nobody'))
-        if kind == 'pickle.load':
-            self.seen[me] = self.version
-        elif kind == 'pickle.dump':
-            if self.seen.get(me) != self.version:
+        if kind in ('exists', 'open.r', 'pickle.load'):
+            self.seen[me] = self.version               # what this actor's view of the file is based on
+
+    def _account(self, name, before, after):
+        """Ghost bookkeeping from the CONTENT of the data file before / after a turn (not from the name of
+        the operation that changed it): a new record is a save, a disappearance is an unlink."""
+        if after == before:
+            return
+        if after not in ('A', 'E') and not after.startswith('?'):
+            if self.seen.get(name) != self.version:
                 self.lost = True
-                self.lost_why = self.lost_why or '%s dumped over a version it had not loaded' % me
+                self.lost_why = self.lost_why or '%s saved over a version it had not loaded' % name
             self.version += 1
             self.saves += 1
-        elif kind == 'unlink':
-            if self.seen.get(me) != self.version:
+        elif after == 'A':
+            if self.seen.get(name) != self.version:
                 self.lost = True
                 self.lost_why = self.lost_why or \
-                    '%s unlinked the session file although it was saved after %s checked it' % (me, me)
+                    '%s unlinked the session file although it was saved after %s checked it' % (name, name)
 
     # ---- real code ---------------------------------------------------------------------------------
     def _worker(self, i):
@@ -260,7 +265,7 @@ class FileRun:
 
         def body():
             kw = {'lock_timeout': 5} if self.lt[i] else {}
-            s = FS(id=SID, storage_path=self.tmp, timeout=1, clean_freq=0, **kw)
+            s = FS(id=SID, storage_path=self.tmp, timeout=1, clean_freq=0, debug=DEBUG, **kw)
             if s.id != SID:
                 return 'gone'
             try:
@@ -314,6 +319,7 @@ class FileRun:
         if expire:
             self.timer_expired[name] = True
         st = self.sched.threads[name]
+        self._fs_cache = None
         self.sched.step(name, force=True)                 # the attempt fails: Timeout
         guard = 0
         while st.status != 'done' and st.pending[0] != 'lock.acquire':
@@ -338,7 +344,10 @@ class FileRun:
         if name == 'S' and st.status != 'done' and st.pending[0] == 'sweep.start':
             sched.step('S')
         lab = self.label(sched.pending(name)) if sched.enabled(name) else '-'
+        before = self.file_state()
         sched.step(name)
+        self._fs_cache = None
+        self._account(name, before, self.file_state())
         inside = [n for n, t in sched.threads.items()
                   if self.holders.get(self.lockpath) and self.holders[self.lockpath][0] == n]
         self.max_occ = max(self.max_occ, len(inside))
